@@ -1,6 +1,7 @@
 SPECIFICATION Spec
 CONSTANTS
   Known <- KnownSet
+  Ambiguous <- Amb
   Modules = {"gvmod_ok"}
   Templates <- TplDiamond
   FileNames <- Files3
